@@ -2,7 +2,10 @@ use crate::{
     Error, FILE_MAGIC, PAGE_SIZE, Result, STORAGE_FORMAT_EPOCH, VERSION_MAJOR, VERSION_MINOR,
 };
 use std::collections::BTreeSet;
+#[cfg(not(nervusdb_verif))]
 use std::fs::{File, OpenOptions};
+#[cfg(nervusdb_verif)]
+use nervusdb_api::verif::fs::{File, OpenOptions};
 use std::io;
 use std::path::{Path, PathBuf};
 
